@@ -40,6 +40,9 @@ func main() {
 	exe, _ := os.Executable()
 
 	switch *mode {
+	case "tracedump":
+		fmt.Print(sim.TraceDump(*prop, *engine, *seed, *maxRuns, *schedules, *bin))
+		return
 	case "one":
 		// debugging aid: execute one global run index and print its trace
 		fmt.Print(sim.DebugOne(*prop, *engine, *seed, *maxRuns))
